@@ -377,8 +377,9 @@ def r7_named_fields(ctx):
     ctx.ob(hn.where, "flag k is looked up by the k-th declared key", ok, "", key="C02-R7|flag-by-number")
 
 
-from ..through_time import make_rule as _mk_tt
+from ..through_time import make_rule as _mk_tt, make_t2 as _mk_t2
 _through_time = _mk_tt("C02")
+_small_edits = _mk_t2("C02")
 
 from .c18 import r2_parsing as _number_parsing              # signs, digits, powers of integer / float columns
 def _selection_tables(ctx):
@@ -403,6 +404,7 @@ RULES = [
     ("C02-R7", r7_named_fields),
     ("C02-R8", _crlf_line_ends),
     ("C02-T1", _through_time),
+    ("C02-T2", _small_edits),
     ("C02-R9", _number_parsing),
     ("C02-R10", _selection_tables),
     ("C02-R11", _late_bound_constants),
